@@ -1,5 +1,5 @@
 """Identifier normalisation (C10): idempotent, and case-sensitive identifiers are left alone."""
-from pyvc.contract import contract, define, fields, axiom
+from pyvc.contract import contract, define, fields, axiom, uninterpreted
 import contracts.core_tree  # Expression.set contract (args frame, hash invalidation)
 
 D = "sqlglot/dialects/dialect.py"
@@ -39,4 +39,28 @@ contract(
     modifies=["*.parent", "*.arg_key", "*.index", "*._hash", "expression.args{}", "expression.args['this'][]"],
     inline=["quoted", "this"],
     must_fail=["expression.args['this'] is old(expression.args['this'])"],
+)
+
+uninterpreted("cs_m", 1)     # self.case_sensitive(text): a function of the text (the dialect is fixed during the call)
+uninterpreted("safe_re", 1)  # bool(exp.SAFE_IDENTIFIER_RE.match(text))
+define("is_safe", "lambda d, e: not truthy(cs_m(e.args.get('this'))) and truthy(safe_re(e.args.get('this')))")
+
+contract(
+    D, "Dialect.can_quote", props=["C10", "C07"],
+    types={"identifier": "Identifier", "identify": "any"},
+    ensures=[
+        "is_bool(result)",
+        "implies(is_quoted(identifier), result is True)",
+        "implies(not is_quoted(identifier) and not truthy(identify), result is False)",
+        "implies(not is_quoted(identifier) and truthy(identify) and isinstance(identifier.parent, Func), result is False)",
+        "implies(not is_quoted(identifier) and identify is True and not isinstance(identifier.parent, Func), result is True)",
+        # 'safe' quotes exactly the identifiers that quoting cannot change the meaning of; 'unsafe' the others
+        "implies(not is_quoted(identifier) and identify == 'safe' and not isinstance(identifier.parent, Func), result == is_safe(self, identifier))",
+        "implies(not is_quoted(identifier) and identify == 'unsafe' and not isinstance(identifier.parent, Func), result == (not is_safe(self, identifier)))",
+    ],
+    # total on the documented values; anything else is rejected loudly instead of silently quoting or not
+    raises={"ValueError": ["not is_quoted(identifier)", "truthy(identify)", "identify is not True", "identify != 'safe'", "identify != 'unsafe'"]},
+    modifies=[],
+    inline=["quoted", "this"],
+    opaque={"self.case_sensitive": dict(pure=True, uf="cs_m"), "exp.SAFE_IDENTIFIER_RE.match": dict(pure=True, uf="safe_re")},
 )
